@@ -3,3 +3,4 @@
 //! (thin, forwarding) wrappers themselves.
 
 pub use crate::kbucket::verif_kad_kb as kb;
+pub use crate::query::verif_kad_q as q;
